@@ -1,7 +1,7 @@
 import BeyondVerif.Props.C13Wf
 /-!
 C13, `load_dump_id` for a whole message type: **OEM in XML**.  For every non-empty list of well-formed
-segments (`SegWf`: any of the ten frames, non-empty texts, 1..N points with distinct epochs, each point
+segments (`SegWf`: any registered frame (Earth-centred or not), non-empty texts, 1..N points with distinct epochs, each point
 with or without a covariance block in the orbit's frame / QSW / TNW, `INTERPOLATION` with or without
 `INTERPOLATION_DEGREE`) `loadOemXml (oemXml m)` is `m` again.
 
@@ -422,7 +422,7 @@ end OemXml
 
 /-- **`load_dump_id`, OEM, XML.**  Every non-empty list of well-formed segments — each with 1..N points of distinct epochs,
 0..N covariance blocks (own frame, QSW or TNW) attached to the point of the same epoch, LINEAR without / LAGRANGE with
-`INTERPOLATION_DEGREE`, any of the ten frames — is read back from what the XML writer produced: one segment as many
+`INTERPOLATION_DEGREE`, any registered frame (Earth-centred or not) — is read back from what the XML writer produced: one segment as many
 (`wrapOemSegment`), one point as many (`wrapOemStateVector`), no, one or many covariance blocks (`wrapOemCov`). -/
 theorem oem_xml_load_dump_id (m : Oem) (hne : m ≠ []) (h : ∀ s ∈ m, SegWf s) : (oemXml m >>= loadOemXml) = .ok m := by
   obtain ⟨eds, h1, h2, h3, h4, h5⟩ := segs_xml m h
